@@ -24,7 +24,7 @@ import numpy as np
 from hypothesis import strategies as st
 
 from .. import strategies as S
-from ..engine import Clause, Violation, require
+from ..engine import Clause, require
 
 # the sampler reports every broken sequence constraint through logging.warning (root logger)
 logging.disable(logging.WARNING)
@@ -103,7 +103,11 @@ def cases(draw, modes):
         top = max(len(e) for e in edges)
     if mode in ("sequences", "deg_only", "dim_only"):
         realisable = draw(st.booleans())
-        hidden = draw(S.edge_sets(N, min_edges=2, max_edges=7, min_size=2, max_size=min(N, 5)))
+        # deg_only: small conditioned sizes and many nodes, so that max_hye_size="top" is a real
+        # restriction for the sizes the sampler draws for the left-over degrees
+        biggest = 3 if (mode == "deg_only" and draw(st.booleans())) else min(N, 5)
+        hidden = draw(S.edge_sets(N, min_edges=2 if mode != "deg_only" else 4, max_edges=7,
+                                  min_size=2, max_size=biggest))
         sizes = Counter(len(e) for e in hidden)
         order = draw(st.permutations(sorted(sizes)))
         dim_seq = [[d, sizes[d]] for d in order]
@@ -120,7 +124,8 @@ def cases(draw, modes):
         top = max(sizes)
     if mode in ("model", "deg_only", "dim_only"):
         # scale u so that the model expects `target`/3 hyperedges of size 3, /6 of size 4, ...
-        target = draw(st.sampled_from([6.0, 9.0, 15.0, 24.0, 40.0]))
+        target = draw(st.sampled_from([3.0, 6.0, 9.0, 15.0, 24.0, 40.0] if mode == "deg_only"
+                                      else [6.0, 9.0, 15.0, 24.0, 40.0]))
         f = (target / pair_sum(u, w)) ** 0.5
         case["u"] = [[x * f for x in r] for r in u]
         case["target_pair_sum"] = target
@@ -128,7 +133,8 @@ def cases(draw, modes):
         case["avg_deg"] = draw(st.sampled_from([None, None, 2.0, 3.5]))
         case["allow_rescaling"] = draw(st.booleans())
         top = 3
-    case["max_hye"] = draw(st.sampled_from([None, None, "top", "N"]))
+    case["max_hye"] = draw(st.sampled_from([None, "top", "top", "N"] if mode == "deg_only"
+                                           else [None, None, "top", "N"]))
     case["top"] = min(N, max(top, 3))
     return case
 
